@@ -297,6 +297,7 @@ Lemma declared_of_ast_struct sc d :
 Proof.
   intros Hok Hast Hrt.
   unfold schema_okb in Hok.
+  apply andb_prop in Hok; destruct Hok as [Hok _].
   apply andb_prop in Hok; destruct Hok as [Hok Hrefs].
   apply andb_prop in Hok; destruct Hok as [Hok Hnoover].
   apply andb_prop in Hok; destruct Hok as [Hok Hnodef].
@@ -426,6 +427,7 @@ Theorem declared_of_ast sc d :
 Proof.
   intros Hok Hast Hrt. pose proof (declared_of_ast_struct sc d Hok Hast Hrt) as Hs.
   unfold schema_okb in Hok.
+  apply andb_prop in Hok; destruct Hok as [Hok _].
   apply andb_prop in Hok; destruct Hok as [Hok _].
   apply andb_prop in Hok; destruct Hok as [Hok _].
   apply andb_prop in Hok; destruct Hok as [Hok _].
